@@ -363,3 +363,7 @@ Definition dec4 (x : Z) : list N :=
 Definition iso_string (y mo d h mi s : Z) (sg : N) (zh zm : Z) : list N :=
   [b_D; b_colon] ++ dec4 y ++ dec2 mo ++ dec2 d ++ dec2 h ++ dec2 mi ++ dec2 s
     ++ [sg] ++ dec2 zh ++ [b_apos] ++ dec2 zm ++ [b_apos].
+
+(* the offset (seconds east of UTC) denoted by sign byte, zone hours, zone minutes *)
+Definition signed_off (sg : N) (zh zm : Z) : Z :=
+  if (sg =? b_minus)%N then - (zh * 3600 + zm * 60) else zh * 3600 + zm * 60.
